@@ -146,4 +146,22 @@ Definition check_fcase (c : fcase) : bool :=
   | _, _ => false
   end.
 
+(* ---- time limits handed to the child process ---------------------------------------------------------
+   Both executors give a test case of [size] statements the budget min(maximum, per_statement * size)
+   (TestCaseExecutor.execute, SubprocessTestCaseExecutor._calculate_timeout).  The child-side executor is
+   built from the two limits the parent passes through the process arguments. *)
+Definition budget (mx per size : Z) : Z := Z.min mx (per * size).
+
+Record lcase := {
+  l_parent : Z * Z;              (* (maximum_test_execution_timeout, test_execution_time_per_statement) of the parent *)
+  l_child : list (Z * Z);        (* the same two attributes of every TestCaseExecutor built in a child process *)
+  l_sizes : list Z;
+  l_budgets : list Z }.          (* parent-side _calculate_timeout for test cases of these sizes *)
+
+Definition same_limits (a b : Z * Z) : bool := Z.eqb (fst a) (fst b) && Z.eqb (snd a) (snd b).
+
+Definition check_lcase (c : lcase) : bool :=
+  forallb (same_limits (l_parent c)) (l_child c)
+  && eqb_listZ (map (budget (fst (l_parent c)) (snd (l_parent c))) (l_sizes c)) (l_budgets c).
+
 End C31.
